@@ -10,7 +10,7 @@ CFG = {'assumptions': ['containers are not modelled here (C14)'],
  'proof_targets': ['Props/C04.vo'],
  'theorem_backed': 'c04_inv_reachable: after every command of every history the model state is canonical '
                    '(all stored ids are union-find roots), functional (keys distinct), has no two congruent '
-                   'rows; eval is evaluation modulo the union-find',
+                   'rows; eval is evaluation modulo the union-find; c04_x_inv_reachable: for EVERY program of the rule interpreter over ANY signature (lattice functions, relations, :no-merge, subsume, delete, panic, ungrounded actions) every state visited - error point included - is canonical and functional; c04_x_no_model_error (rebuild fuel suffices on mixed signatures)',
  'tier_a': ['UFSeq', 'MergeArms', 'BridgeFns'],
  'trusted': ['translator /verif/translator: gen/UFSeq.v (union-find), gen/MergeArms.v (UnionId=min, Old, '
              'New), gen/BridgeFns.v (combine_subsumed) are regenerated from the source on every run and used '
